@@ -176,19 +176,15 @@ theorem clause_frame {w w' : World} (hs : SFrame w w') :
     w'.n = w.n ∧ (∀ b, w'.cfgOf b = w.cfgOf b) := by
   refine ⟨by simp [n, hs.cfg], fun b => by simp [cfgOf, hs.cfg]⟩
 
-/-- what one component's reset does to the clause groups -/
-theorem applyComp_spec (c : StateComp) (w : World) (t : Tape) (w' : World) (t' : Tape)
-    (hwf : ∀ kind o, c = .position kind o → wfPlacement kind o w = true) (hcfg : CfgOK w)
-    (hlen : w.st.length = w.cfg.length) (h : applyComp c w t = .ok (w', t')) :
-    SFrame w w' ∧ (NoAmmoC w → NoAmmoC w') ∧
-    ((∃ kind o, c = .position kind o) ∨ PosC w → PosC w') ∧
-    (c = .health ∨ HealthC w → HealthC w') ∧
-    (c = .ammo ∨ AmmoC w → AmmoC w') ∧
-    (c = .orient ∨ OrientC w → OrientC w') := by
-  cases c with
-  | position kind o =>
-    have hspec := place_ok_spec kind o w t (hwf kind o rfl)
-    simp only [applyComp, placementReset, PlaceOut.toExcept] at h
+/-- what a successful reset of a placement state does to the clause groups: it establishes the
+position clauses and keeps everybody's vitals -/
+theorem placement_clauses (kind : PKind) (o : PlaceOpts) (w : World) (t : Tape) (w' : World) (t' : Tape)
+    (hwf : wfPlacement kind o w = true) (hlen : w.st.length = w.cfg.length)
+    (h : placementReset kind o w t = .ok (w', t')) :
+    SFrame w w' ∧ (NoAmmoC w → NoAmmoC w') ∧ PosC w' ∧ (HealthC w → HealthC w') ∧
+    (AmmoC w → AmmoC w') ∧ (OrientC w → OrientC w') := by
+    have hspec := place_ok_spec kind o w t hwf
+    simp only [placementReset, PlaceOut.toExcept] at h
     cases herr : (resetX kind o w t).1.err with
     | some e => rw [herr] at h; cases h
     | none =>
@@ -207,18 +203,38 @@ theorem applyComp_spec (c : StateComp) (w : World) (t : Tape) (w' : World) (t' :
       have hv : ∀ a < w.n, w'.stOf a = { w.stOf a with pos := (w'.stOf a).pos } := by
         simp only [vitalsKept, List.all_eq_true, allAgents, List.mem_range, beq_iff_eq] at hvk
         exact hvk
-      refine ⟨hS, ?_, fun _ => hpos, ?_, ?_, ?_⟩
+      refine ⟨hS, ?_, hpos, ?_, ?_, ?_⟩
       · intro hN a ha hA
         rw [hn] at ha; rw [hcf] at hA; rw [hv a ha]; exact hN a ha hA
-      · rintro (hc | hH)
-        · cases hc
-        · intro a ha; rw [hn] at ha; rw [hv a ha]; exact hH a ha
-      · rintro (hc | hA)
-        · cases hc
-        · intro a ha hAm; rw [hn] at ha; rw [hcf] at hAm ⊢; rw [hv a ha]; exact hA a ha hAm
-      · rintro (hc | hO)
-        · cases hc
-        · intro a ha hOr; rw [hn] at ha; rw [hcf] at hOr; rw [hv a ha]; exact hO a ha hOr
+      · intro hH a ha; rw [hn] at ha; rw [hv a ha]; exact hH a ha
+      · intro hA a ha hAm; rw [hn] at ha; rw [hcf] at hAm ⊢; rw [hv a ha]; exact hA a ha hAm
+      · intro hO a ha hOr; rw [hn] at ha; rw [hcf] at hOr; rw [hv a ha]; exact hO a ha hOr
+
+/-- what one component's reset does to the clause groups (`healthClosed`, the out-of-domain oracle
+stream of finding K4, is excluded) -/
+theorem applyComp_spec (c : StateComp) (w : World) (t : Tape) (w' : World) (t' : Tape)
+    (hwf : ∀ kind o, c = .position kind o → wfPlacement kind o w = true) (hcfg : CfgOK w)
+    (hnc : c ≠ .healthClosed)
+    (hlen : w.st.length = w.cfg.length) (h : applyComp c w t = .ok (w', t')) :
+    SFrame w w' ∧ (NoAmmoC w → NoAmmoC w') ∧
+    ((∃ kind o, c = .position kind o) ∨ PosC w → PosC w') ∧
+    (c = .health ∨ HealthC w → HealthC w') ∧
+    (c = .ammo ∨ AmmoC w → AmmoC w') ∧
+    (c = .orient ∨ OrientC w → OrientC w') := by
+  cases c with
+  | healthClosed => exact absurd rfl hnc
+  | position kind o =>
+    obtain ⟨hS, hN, hP, hH, hA, hO⟩ := placement_clauses kind o w t w' t' (hwf kind o rfl) hlen h
+    refine ⟨hS, hN, fun _ => hP, ?_, ?_, ?_⟩
+    · rintro (hc | hH')
+      · cases hc
+      · exact hH hH'
+    · rintro (hc | hA')
+      · cases hc
+      · exact hA hA'
+    · rintro (hc | hO')
+      · cases hc
+      · exact hO hO'
   | health =>
     simp only [applyComp, Except.ok.injEq] at h
     obtain ⟨hF, h2, h3, h4⟩ := healthResetFrom_spec (List.range w.n) w t List.nodup_range hcfg
@@ -306,6 +322,7 @@ provided it held before or its component is in the list — **in any order** -/
 theorem applyComps_spec (cs : List StateComp) :
     ∀ (w : World) (t : Tape) (w' : World) (t' : Tape),
       (∀ kind o, StateComp.position kind o ∈ cs → wfPlacement kind o w = true) → CfgOK w →
+      StateComp.healthClosed ∉ cs →
       w.st.length = w.cfg.length → applyComps cs w t = .ok (w', t') →
       SFrame w w' ∧ (NoAmmoC w → NoAmmoC w') ∧
       ((∃ kind o, StateComp.position kind o ∈ cs) ∨ PosC w → PosC w') ∧
@@ -314,7 +331,7 @@ theorem applyComps_spec (cs : List StateComp) :
       (StateComp.orient ∈ cs ∨ OrientC w → OrientC w') := by
   induction cs with
   | nil =>
-    intro w t w' t' _ _ _ h
+    intro w t w' t' _ _ _ _ h
     simp only [applyComps, Except.ok.injEq, Prod.mk.injEq] at h
     rw [← h.1]
     refine ⟨SFrame.refl w, id, ?_, ?_, ?_, ?_⟩
@@ -323,7 +340,7 @@ theorem applyComps_spec (cs : List StateComp) :
     · rintro (h | h); cases h; exact h
     · rintro (h | h); cases h; exact h
   | cons c cs ih =>
-    intro w t w' t' hwf hcfg hlen h
+    intro w t w' t' hwf hcfg hnc hlen h
     simp only [applyComps] at h
     cases h1 : applyComp c w t with
     | error e => rw [h1] at h; cases h
@@ -332,11 +349,12 @@ theorem applyComps_spec (cs : List StateComp) :
       rw [h1] at h
       simp only at h
       obtain ⟨hS1, hN1, hP1, hH1, hA1, hO1⟩ :=
-        applyComp_spec c w t w1 t1 (fun k o hc => hwf k o (by rw [hc]; exact List.mem_cons_self)) hcfg hlen h1
+        applyComp_spec c w t w1 t1 (fun k o hc => hwf k o (by rw [hc]; exact List.mem_cons_self)) hcfg
+          (fun hc => hnc (by rw [hc]; exact List.mem_cons_self)) hlen h1
       have hlen1 : w1.st.length = w1.cfg.length := by rw [hS1.len, hS1.cfg]; exact hlen
       obtain ⟨hS2, hN2, hP2, hH2, hA2, hO2⟩ := ih w1 t1 w' t'
         (fun k o hm => by rw [wfPlacement_of_sframe hS1]; exact hwf k o (List.mem_cons_of_mem _ hm))
-        (cfgOK_of_sframe hS1 hcfg) hlen1 h
+        (cfgOK_of_sframe hS1 hcfg) (fun hm => hnc (List.mem_cons_of_mem _ hm)) hlen1 h
       refine ⟨hS1.trans hS2, fun hn => hN2 (hN1 hn), ?_, ?_, ?_, ?_⟩
       · rintro (⟨k, o, hm⟩ | hp)
         · rcases List.mem_cons.mp hm with hm | hm
@@ -364,10 +382,12 @@ through a placement state, `HealthState`, `AmmoState` and `OrientationState` —
 tape — yields a world satisfying the invariant.  Hypotheses: the configuration facts the
 constructors guarantee (`wfPlacement`, `CfgOK`; C19) and that the ammunition field of agents without
 ammunition was never written.  (A drawn initial health is never exactly 0 in the regular oracle
-stream; numpy's `uniform(0, 1)` can return 0.0 with probability 2⁻⁵³: finding K4, witnessed below.) -/
+stream; numpy's `uniform(0, 1)` can return 0.0 with probability 2⁻⁵³: finding K4 — that stream is the
+component `healthClosed`, excluded here and witnessed to break the invariant in Props/C03.lean.) -/
 theorem C03_reset_establishes (cs : List StateComp) (w : World) (t : Tape) (w' : World) (t' : Tape)
     (hpos : ∃ kind o, StateComp.position kind o ∈ cs) (hh : StateComp.health ∈ cs)
     (ha : StateComp.ammo ∈ cs) (ho : StateComp.orient ∈ cs)
+    (hnc : StateComp.healthClosed ∉ cs)
     (hwf : ∀ kind o, StateComp.position kind o ∈ cs → wfPlacement kind o w = true) (hcfg : CfgOK w)
     (hn : NoAmmoC w) (h : applyComps cs w t = .ok (w', t')) : w'.WInv = true := by
   obtain ⟨k0, o0, hm0⟩ := hpos
@@ -378,7 +398,7 @@ theorem C03_reset_establishes (cs : List StateComp) (w : World) (t : Tape) (w' :
   have hsym : w.wOverlapSym = true := by
     simp only [wfPlacement, Bool.and_eq_true] at hwf0
     exact hwf0.1.1.2
-  obtain ⟨hS, hN, hP, hH, hA, hO⟩ := applyComps_spec cs w t w' t' hwf hcfg hlen h
+  obtain ⟨hS, hN, hP, hH, hA, hO⟩ := applyComps_spec cs w t w' t' hwf hcfg hnc hlen h
   have hsym' : w'.wOverlapSym = true := by
     have hpk : w'.pairOK = w.pairOK := by funext a b; simp [pairOK, hS.overlap]
     simp only [wOverlapSym, hS.overlap, hpk] at hsym ⊢
